@@ -294,6 +294,22 @@ def _run(case, ctx):
     info = {"sig": sig, "sig2": sig2, "va": va, "vb": vb}
     _judge_binop(ctx, "SI*SI", x * y, float(va) * float(vb), [p + q for p, q in zip(sig, sig2)], info)
     _judge_binop(ctx, "SI/SI", x / y, float(va) / float(vb), [p - q for p, q in zip(sig, sig2)], info)
+    # longer chains: exponents add up beyond one digit (m10, s-12); such values still scale, negate, add and subtract
+    try:
+        p4 = x * y * x * y
+        s4 = [2 * (p + q) for p, q in zip(sig, sig2)]
+        v4 = float(va) * float(vb) * float(va) * float(vb)
+        _judge_binop(ctx, "SI-chain", p4, v4, s4, info)
+        if math.isfinite(v4):
+            for opn, r, want in (("scale", p4 * 2.0, v4 * 2.0), ("scale-left", 0.5 * p4, 0.5 * v4), ("neg", -p4, -v4), ("add", p4 + p4, v4 + v4),
+                                 ("sub", p4 - p4, v4 - v4), ("div-back", p4 / x, v4 / float(va))):
+                ctx.count("chained_SI_operations")
+                wsig = s4 if opn != "div-back" else [a_ - b_ for a_, b_ in zip(s4, sig)]
+                if list(r.sisig()) != wsig or fx(float(r)) != fx(want):
+                    ctx.viol(f"SI-chain-{opn}", {**info, "got": [list(r.sisig()), fx(float(r))], "want": [wsig, fx(want)]})
+                    break
+    except Exception as e:
+        ctx.viol(f"SI-chain:raises:{type(e).__name__}", {**info, "exc": repr(e)[:200]})
     A = cl[case["a"]]
     a = A(va if type(va) in (int, float) else float(va))
     _judge_binop(ctx, "q*SI", a * y, float(a) * float(vb), [p + q for p, q in zip(A.sisig(), sig2)], info)
